@@ -9,7 +9,12 @@ echo "== build with change" >> $LOG
 nice ninja -C _build -j${J:-8} >> $LOG.build 2>&1 || { echo "BUILD FAILED with change" | tee -a $LOG; git checkout -q -- .; exit 1; }
 echo "== ctest with change" >> $LOG
 ctest --test-dir _build -j${J:-8} --timeout 900 > $LOG.ctest 2>&1; tail -5 $LOG.ctest >> $LOG
-grep -q "100% tests passed" $LOG.ctest && T=pass || T=FAIL
+if ! grep -q "100% tests passed" $LOG.ctest; then
+  # tests that fail within a second under heavy machine load are re-run once, alone
+  echo "== rerun failed (sequential)" >> $LOG
+  ctest --test-dir _build --rerun-failed --timeout 900 > $LOG.ctest2 2>&1; tail -5 $LOG.ctest2 >> $LOG
+  grep -q "100% tests passed" $LOG.ctest2 && T=pass-after-rerun || T=FAIL
+else T=pass; fi
 mkdir -p $W/demo_$ID && sed "s#/tmp/mut_[A-Za-z0-9_]*#$W#g" $D/demo/demo.cpp > $W/demo_$ID/demo.cpp
 sed "s#/tmp/mut_[A-Za-z0-9_]*#$W#g; s#demo/demo.cpp#demo_$ID/demo.cpp#g; s#demo/demo\b#demo_$ID/demo#g; s#$W/demo\b#$W/demo_$ID#g" $D/demo/build.sh > $W/demo_$ID/build.sh
 (cd $W/demo_$ID && bash ./build.sh) >> $LOG 2>&1
